@@ -263,7 +263,12 @@ func (cs *complexShaperHangul) preprocessText(_ *otShapePlan, buffer *Buffer, fo
 			/* Otherwise, decompose if font doesn't support <LV> or <LVT>,
 			* or if having non-combining <LV,T>.  Note that we already handled
 			* combining <LV,T> above. */
-			if !HasGlyph || (tindex == 0 && buffer.idx+1 < count && isT(buffer.cur(+1).codepoint)) {
+			nonCombiningT := tindex == 0 && buffer.idx+1 < count && isT(buffer.cur(+1).codepoint)
+			if nonCombiningT {
+				/* Mark unsafe between LV and T : the <LV> is decomposed (or not) because of it. */
+				buffer.unsafeToBreak(buffer.idx, buffer.idx+2)
+			}
+			if !HasGlyph || nonCombiningT {
 				decomposed := [3]rune{
 					ucd.HangulLBase + lindex,
 					ucd.HangulVBase + vindex,
@@ -305,8 +310,6 @@ func (cs *complexShaperHangul) preprocessText(_ *otShapePlan, buffer *Buffer, fo
 						buffer.mergeOutClusters(start, end)
 					}
 					continue
-				} else if tindex == 0 && buffer.idx+1 < count && isT(buffer.cur(+1).codepoint) {
-					buffer.unsafeToBreak(buffer.idx, buffer.idx+2) /* Mark unsafe between LV and T. */
 				}
 			}
 
